@@ -297,9 +297,13 @@ def runChain : List (Stage × Filter) → Target → Ctx → St → Ctx × St ×
         | (_, s2, none) => runStage st true f.post cx1 s2
       | .middle =>
         -- same Request and Response objects; the ResponseWriter inside the Response is wrapped
+        -- (the adapter stores the wrapped writer in the Response for good: filters further out see it
+        -- in their post part; the middleware's own post part runs on the writer it was given)
         match runChain fs t { cx1 with wrappers := f.id :: cx1.wrappers } s1 with
-        | (cx2, s2, some v) => ({ cx2 with wrappers := cx1.wrappers }, s2, some v)
-        | (cx2, s2, none) => runStage st true f.post { cx2 with wrappers := cx1.wrappers } s2
+        | (cx2, s2, some v) => (cx2, s2, some v)
+        | (cx2, s2, none) =>
+          match runStage st true f.post { cx2 with wrappers := cx1.wrappers } s2 with
+          | (cx3, s3, p) => ({ cx3 with wrappers := cx2.wrappers }, s3, p)
 
 def label (mk : Nat → Stage) (fs : List Filter) : List (Stage × Filter) := fs.map (fun f => (mk f.id, f))
 
